@@ -41,15 +41,24 @@ CONSTANTS
                    \* FALSE: the tree is built first; the release of all client references, in an order
                    \*   derived from `salt`, is the "release tail" of every complete build (ReleaseTail)
     MaxRetains,    \* bound on explicit dispatch_retain calls (Lifetimes only)
+    ReleaseAfter,  \* Lifetimes: the client starts releasing after this many operations (0: any time;
+                   \*   > 0 only to bias -simulate towards deeper trees)
     Connected,     \* TRUE: prune op sequences that cannot end as ONE operation tree (every result used later)
     EmptyOperand,  \* TRUE: dispatch_data_empty may be passed as an operand
-    KeepHist,      \* TRUE: carry the serialised behaviour in `hist`
+    KeepHist,      \* "codes": carry the serialised behaviour (steps + expected projections) in `hist`;
+                   \* "ops": carry only the operations (cheap successors: -simulate), serialise at the end;
+                   \* "none": no history (model checking only)
+    Huge,          \* {} or {HUGE}: extra offset/length/location standing for SIZE_MAX (the replay passes
+                   \*   SIZE_MAX): the model computes with unbounded naturals, the C code must not wrap
+    Sample,        \* TRUE (-simulate only): offsets/lengths/locations/second operands are drawn with
+                   \*   RandomElement instead of being enumerated
     Mut            \* "none" or the name of a spec mutation (non-vacuity)
 
 VARIABLES heap, bufs, rc, err, client, nleaves, nops, nret, unused, salt, lastop, hist
 vars == <<heap, bufs, rc, err, client, nleaves, nops, nret, unused, salt, lastop, hist>>
 
 E      == 1      \* dispatch_data_empty
+HUGE   == 99999  \* stands for SIZE_MAX in offsets / lengths / locations
 UNINIT == 254    \* a byte malloc() returned and nobody wrote
 OOB    == 255    \* a byte read outside a buffer
 
@@ -295,7 +304,10 @@ Pad(s, n) == s \o [i \in 1..(n - Len(s)) |-> 0]
 HeldIn(cl) == {d \in 2..Len(cl) : cl[d] > 0}
 Held == HeldIn(client)
 Operands == Held \cup (IF EmptyOperand THEN {E} ELSE {})
-Building == nleaves >= 1 /\ nops < MaxOps
+NothingReleased == \A d \in 2..Len(heap) : client[d] > 0
+\* (IF, not \/: TLC would generate the successor once per true disjunct)
+Building == nleaves >= 1 /\ nops < MaxOps /\ (IF Held # {} THEN TRUE ELSE NothingReleased)
+Draw(S) == IF Sample /\ S # {} THEN {RandomElement(S)} ELSE S
 
 Init ==
     /\ heap = <<EmptyObj>> /\ bufs = <<>> /\ rc = <<0>> /\ err = {}
@@ -350,15 +362,21 @@ StepCode(m0, m, cl, op) ==
        \o <<Cardinality(ds)>>
        \o Cat([d \in 1..n1 |-> IF d \in ds THEN Desc(m, d) ELSE <<>>], 1, n1)
 
+\* the client's references after the step: the result is one more reference; release gives one up
+NextClient(cl, m, op) ==
+    LET cl0 == Pad(cl, Len(m.heap))
+        cl1 == IF op.res = E \/ op.op = "release" THEN cl0 ELSE [cl0 EXCEPT ![op.res] = @ + 1]
+    IN IF op.op = "release" THEN [cl1 EXCEPT ![op.a] = @ - 1] ELSE cl1
+
 Commit(m, res, op0) ==
     LET op  == [op0 EXCEPT !.n0 = Len(heap)]
-        cl0 == Pad(client, Len(m.heap))
-        cl1 == IF res = E \/ op.op = "release" THEN cl0 ELSE [cl0 EXCEPT ![res] = @ + 1]
-        cl2 == IF op.op = "release" THEN [cl1 EXCEPT ![op.a] = @ - 1] ELSE cl1 IN
+        cl2 == NextClient(client, m, op) IN
     /\ heap' = m.heap /\ bufs' = m.bufs /\ rc' = m.rc /\ err' = m.err
     /\ client' = cl2
     /\ lastop' = op
-    /\ hist' = IF KeepHist THEN hist \o StepCode(M, m, cl2, op) ELSE hist
+    /\ hist' = CASE KeepHist = "codes" -> hist \o StepCode(M, m, cl2, op)
+                 [] KeepHist = "ops"   -> Append(hist, op)
+                 [] OTHER              -> hist
     \* a new object's operation tree must not be deeper than MaxDepth
     /\ Len(m.heap) > Len(heap) => m.heap[Len(m.heap)].depth <= MaxDepth
 
@@ -374,19 +392,20 @@ DerivedOp(m, res, op, operands) ==
 LeafContent(n, b) == [j \in 1..n |-> (16 * b + j) % 250]
 
 CreateLeaf ==
-    /\ nops = 0 /\ nret = 0 /\ nleaves < MaxLeaves
-    /\ \A d \in 2..Len(heap) : client[d] > 0          \* nothing released yet
-    /\ \E n \in LeafLens[nleaves + 1], k \in LeafKinds[nleaves + 1] :
+    /\ nleaves < MaxLeaves
+    \* exhaustive exploration: leaves first (fewer permutations of the same tree); -simulate: any time
+    /\ IF Sample THEN TRUE ELSE (nops = 0 /\ nret = 0 /\ NothingReleased)
+    /\ \E n \in LeafLens[nleaves + 1], k \in Draw(LeafKinds[nleaves + 1]) :
        \E content \in (IF Alphabet = {} THEN {LeafContent(n, Len(bufs) + 1)} ELSE [1..n -> Alphabet]) :
           LET r == LeafAlg(M, content, k) IN
           /\ Commit(r.m, r.res, [op |-> "leaf", a |-> n, b |-> r.buf, c |-> 0, kind |-> k, res |-> r.res,
-                                 aux |-> 0, n0 |-> 0])
+                                 aux |-> 0, n0 |-> 0, content |-> content])
           /\ nleaves' = nleaves + 1
           /\ UNCHANGED <<nops, nret, unused, salt>>
 
 Concat ==
     /\ Building /\ "concat" \in OpSet
-    /\ \E a \in Operands, b \in Operands :
+    /\ \E a \in Operands, b \in Draw(Operands) :
           LET r == ConcatAlg(M, a, b) IN
           DerivedOp(r.m, r.res, [op |-> "concat", a |-> a, b |-> b, c |-> 0, res |-> r.res, aux |-> 0, n0 |-> 0],
                     {a, b})
@@ -394,7 +413,7 @@ Concat ==
 Subrange ==
     /\ Building /\ "subrange" \in OpSet
     /\ \E a \in Operands :
-       \E off \in 0..(heap[a].size + 1), len \in 0..(heap[a].size + 1) :
+       \E off \in Draw(0..(heap[a].size + 1) \cup Huge), len \in Draw(0..(heap[a].size + 1) \cup Huge) :
           LET r == SubrangeAlg(M, a, off, len) IN
           DerivedOp(r.m, r.res, [op |-> "subrange", a |-> a, b |-> off, c |-> len, res |-> r.res, aux |-> 0,
                                  n0 |-> 0], {a})
@@ -409,7 +428,7 @@ Map ==
 Region ==
     /\ Building /\ "region" \in OpSet
     /\ \E a \in Operands :
-       \E loc \in 0..(heap[a].size + 1) :
+       \E loc \in Draw(0..(heap[a].size + 1) \cup Huge) :
           LET r == CopyRegionAlg(M, a, loc) IN
           DerivedOp(r.m, r.res, [op |-> "region", a |-> a, b |-> loc, c |-> 0, res |-> r.res, aux |-> r.off,
                                  n0 |-> 0], {a})
@@ -434,7 +453,7 @@ ClientRetain ==
           /\ UNCHANGED <<nleaves, nops, unused, salt>>
 ReleaseOp(a) == [op |-> "release", a |-> a, b |-> 0, c |-> 0, res |-> E, aux |-> 0, n0 |-> 0]
 ClientRelease ==
-    /\ Lifetimes /\ nleaves >= 1
+    /\ Lifetimes /\ nleaves >= 1 /\ nops >= ReleaseAfter
     /\ \E a \in Held :
           /\ Commit(Release(M, a), E, ReleaseOp(a))
           /\ UNCHANGED <<nleaves, nops, nret, unused, salt>>
@@ -462,6 +481,27 @@ RelTail(m, cl, s) ==
 TailCodes ==
     LET T == RelTail(M, client, salt) IN
     Cat([i \in 1..Len(T) |-> StepCode(T[i].m0, T[i].m, T[i].cl, ReleaseOp(T[i].a))], 1, Len(T))
+
+\* KeepHist = "ops": re-execute the recorded operations from the initial machine and serialise them
+Exec(m, op) ==
+    CASE op.op = "leaf"     -> LeafAlg(m, op.content, op.kind).m
+      [] op.op = "concat"   -> ConcatAlg(m, op.a, op.b).m
+      [] op.op = "subrange" -> SubrangeAlg(m, op.a, op.b, op.c).m
+      [] op.op = "map"      -> MapAlg(m, op.a).m
+      [] op.op = "region"   -> CopyRegionAlg(m, op.a, op.b).m
+      [] op.op = "flatten"  -> FlattenAlg(m, op.a).m
+      [] op.op = "retain"   -> Retain(m, op.a)
+      [] op.op = "release"  -> Release(m, op.a)
+RECURSIVE CodesOf(_, _, _, _)
+CodesOf(ops, i, m, cl) ==
+    IF i > Len(ops) THEN <<>>
+    ELSE LET m2  == Exec(m, ops[i])
+             cl2 == NextClient(cl, m2, ops[i])
+         IN StepCode(m, m2, cl2, ops[i]) \o CodesOf(ops, i + 1, m2, cl2)
+InitM == [heap |-> <<EmptyObj>>, bufs |-> <<>>, rc |-> <<0>>, err |-> {}]
+HistCodes == CASE KeepHist = "codes" -> hist
+               [] KeepHist = "ops"   -> CodesOf(hist, 1, InitM, <<0>>)
+               [] OTHER              -> <<>>
 
 (* ====================================================================================== *)
 (* Invariants: the transcribed algorithms against the reference meaning                   *)
@@ -554,9 +594,9 @@ Tiling ==
 \* the ledger: refcount = client references + records of live objects
 LedgerAt(m, cl) ==
     LET L == LiveIn(m)
-        refs(d) == Cardinality({<<x, i>> \in (L \X (1..12)) : i <= Len(m.heap[x].recs) /\ m.heap[x].recs[i].obj = d})
-    IN /\ \A d \in L : Len(m.heap[d].recs) <= 12
-       /\ \A d \in 2..Len(m.heap) :
+        refs(d) == Cardinality(UNION {{<<x, i>> : i \in {j \in 1..Len(m.heap[x].recs) : m.heap[x].recs[j].obj = d}}
+                                      : x \in L})
+    IN \A d \in 2..Len(m.heap) :
             IF m.heap[d].live THEN m.rc[d] > 0 /\ m.rc[d] = cl[d] + refs(d)
             ELSE m.rc[d] = 0 /\ cl[d] = 0
 Ledger == LedgerAt(M, client)
